@@ -1417,6 +1417,8 @@ pub fn c05_alphabet(it: &Interp, d: usize) -> Vec<Op> {
     } else {
         a.push(Op::Insert { slot: 0, k: Val::U(1000 + n), v: Val::B(payload(n, 40)) });
         a.push(Op::Insert { slot: 0, k: Val::U(4000 + n), v: Val::B(payload(n, 3000)) });
+        // a sweep of single-page allocations over whatever space was reclaimed before
+        a.push(Op::Seq((0..80u64).map(|i| Op::Insert { slot: 0, k: Val::U(7000 + 100 * n + i), v: Val::B(payload(i, 300)) }).collect()));
         a.push(Op::Remove { slot: 0, k: Val::U(20) });
         a.push(Op::Retain { slot: 0, pred: Pred::PanicAt(1) });
         a.push(Op::ExtractIf { slot: 0, pred: Pred::PanicAt(2), consume: Consume::All });
@@ -1492,17 +1494,17 @@ pub fn c05_profiles(quick: bool) -> Vec<(Profile, u64)> {
         // a transaction that spilled big pages out of a small cache, read them back and was
         // abandoned; what follows allocates pages of other sizes at the same offsets
         let mut pre = vec![Op::Begin, Op::Open { slot: 0, name: "t".into(), spec: TU }];
-        for i in 1..=8u64 {
+        for i in 1..=40u64 {
             pre.push(Op::Insert { slot: 0, k: Val::U(4100 + i), v: Val::B(payload(4100 + i, 3000)) });
         }
         // read back, the oldest (lowest, first spilled) pages last so that they stay cached
-        for i in (1..=8u64).rev() {
+        for i in (1..=40u64).rev() {
             pre.push(Op::Get { slot: 0, k: Val::U(4100 + i) });
         }
         pre.push(Op::Seq(vec![Op::Abort, Op::Begin]));
-        // write buffer 16 KiB (the 8 four-KiB pages spill), read cache 16 KiB (keeps four of them)
-        let cfg = Cfg::new(512, Some(32 * 1024), 32 * 1024);
-        seeds.push(Seed { name: "spilled-then-abandoned/c32768".into(), cfg, setup: c01_setup(false, false, false), pre });
+        // write buffer 128 KiB (40 four-KiB pages = 160 KiB: the oldest spill), read cache 128 KiB
+        let cfg = Cfg::new(512, Some(32 * 1024), 256 * 1024);
+        seeds.push(Seed { name: "spilled-then-abandoned/c262144".into(), cfg, setup: c01_setup(false, false, false), pre });
     }
     vec![(
         Profile {
